@@ -47,6 +47,11 @@ def convert(kind, cap):
         return str(parse_int(cap)), "Z"
     if kind == "seconds":
         return str(parse_seconds(cap)), "Z"
+    if kind == "product":      # integer literals joined by '*', e.g. 1 * 1024 * 1024
+        v = 1
+        for f in cap.split("*"):
+            v *= parse_int(f)
+        return str(v), "Z"
     if kind == "intlist":
         items = [x for x in re.split(r"[,\s]+", cap.strip()) if x]
         return zlist(parse_int(x) for x in items), "list Z"
